@@ -1888,8 +1888,9 @@ class EAStoryMove(ElementAction):
         """
         Merge into the :class:`RunningOrder` object provided.
         """
-        if self.story is None:
-            target_story_index = len(ro.base_tag)
+        if self.story is None or self.story.id is None:
+            # no target, or a blank one: move to the end
+            target_story = None
         else:
             target_story, target_story_index = find_child(parent=ro.base_tag, child_tag='story', id=self.story.id)
             if target_story is None:
@@ -1897,14 +1898,28 @@ class EAStoryMove(ElementAction):
                     f"{self.__class__.__name__} error in {self.message_id} - target story not found"
                 )
 
+        # find every source before changing anything
+        stories = []
         for source_story in self.stories:
             story, source_index = find_child(parent=ro.base_tag, child_tag='story', id=source_story.id)
             if story is None:
                 raise MosMergeError(
                     f"{self.__class__.__name__} error in {self.message_id} - source story not found"
                 )
+            if story is target_story or story in stories:
+                raise MosMergeError(
+                    f"{self.__class__.__name__} error in {self.message_id} - source story listed twice or same as target"
+                )
+            stories.append(story)
+        for story in stories:
             remove_node(parent=ro.base_tag, node=story)
-            insert_node(parent=ro.base_tag, node=story, index=target_story_index)
+        if target_story is None:
+            target_story_index = len(ro.base_tag)
+        else:
+            # the target's index may have shifted when the sources were removed
+            target_story_index = list(ro.base_tag).index(target_story)
+        for i, story in enumerate(stories, start=target_story_index):
+            insert_node(parent=ro.base_tag, node=story, index=i)
         return ro
 
     def inspect(self):
